@@ -656,12 +656,14 @@ class SCFG(Sized):
         # an arc through the to be inserted block instead.
         for name in predecessors:
             block = self.graph[name]
-            jt = list(block.jump_targets)
+            # Operate on all jump targets so that declared backedges are kept,
+            # arcs that are backedges are not rerouted.
+            jt = list(block._jump_targets)
             renamed: List[Tuple[str, str]] = []
             # Need to create synthetic assignments for each arc from a
             # predecessors to a successor and insert it between the predecessor
             # and the newly created block
-            for s in sorted(set(jt).intersection(successors)):
+            for s in sorted(set(block.jump_targets).intersection(successors)):
                 synth_assign = self.name_gen.new_block_name(SYNTH_ASSIGN)
                 variable_assignment = {}
                 variable_assignment[branch_variable] = branch_variable_value
